@@ -39,10 +39,6 @@ private def Toks.style (t : Toks) : Style × Toks :=
 /-- `Rec::unbounded()` of the harness. -/
 private def unboundedBox : Rect := ⟨⟨-1048576, -1048576⟩, ⟨2097152, 2097152⟩⟩
 
-/-- `small_map`: maps with more than 600 entries print `big:<n>`. -/
-private def smallMap (m : List (Pt × Nat)) : String :=
-  if m.length ≤ 600 then fmtPix m else s!"big:{m.length}"
-
 /-- Canonical map left on `R1` (draw_iter only, box `B`) / `R2` (native fills) by a call list. -/
 private def mapDefault (B : Rect) (calls : List Call) : List (Pt × Nat) :=
   canonPix (calls.flatMap (Call.writesDefault B))
@@ -70,12 +66,11 @@ private def styledResult (stream : String) (view : Pt → StyledView) (t : Toks)
     let m2 := mapNative tb v.calls
     let mp := mapDefault tb [Call.drawIter v.pixels]
     let l1 := fmtLogR1 tb v.calls
-    let l := if l1.length ≤ 4000 then l1 else s!"big:{l1.length}"
-    some s!"r1={smallMap m1} r2eq={b01 (m1 == m2)} pxeq={b01 (m1 == mp)} log={l}"
+    some s!"r1={smallMap m1} r2eq={b01 (m1 == m2)} pxeq={b01 (m1 == mp)} log={smallText l1 4000}"
   | "styled.bbox" =>
     let m := mapDefault unboundedBox v.calls
     let out := m.filter (fun w => !v.bbox.contains w.1)
-    some s!"bb={fmtRect v.bbox} n={m.length} out={out.length}"
+    some s!"bb={fmtRect v.bbox} n={m.length} h={pixDigest m} out={out.length}"
   | "styled.areas" =>
     let m := mapDefault unboundedBox v.calls
     some s!"m={smallMap m} fa={fmtRect v.fa} sa={fmtRect v.sa}"
@@ -84,7 +79,7 @@ private def styledResult (stream : String) (view : Pt → StyledView) (t : Toks)
     let vd := view d
     let m0 := mapDefault unboundedBox v.calls
     let md := mapDefault unboundedBox vd.calls
-    some s!"n={m0.length} shifted={b01 (md == shiftPix d m0)} bb={fmtRect v.bbox} bbd={fmtRect vd.bbox}"
+    some s!"n={m0.length} h={pixDigest m0} shifted={b01 (md == shiftPix d m0)} bb={fmtRect v.bbox} bbd={fmtRect vd.bbox}"
   | _ => none
 
 private def rectView (s : Style) (r : Rect) : StyledView :=
